@@ -9,14 +9,12 @@ package main
 // (coq/IRProc/C37Model.v) is evaluated on the same facts.
 
 import (
-	"crypto/sha256"
 	"encoding/json"
 	"math/big"
 	"os"
 	"strconv"
 	"time"
 
-	"github.com/google/uuid"
 	"github.com/nspcc-dev/neo-go/pkg/core/transaction"
 	"github.com/nspcc-dev/neo-go/pkg/crypto/keys"
 	"github.com/nspcc-dev/neo-go/pkg/neorpc/result"
@@ -25,15 +23,12 @@ import (
 	"github.com/nspcc-dev/neo-go/pkg/vm/stackitem"
 	containerrpc "github.com/nspcc-dev/neofs-contract/rpc/container"
 	cntproc "github.com/nspcc-dev/neofs-node/pkg/innerring/processors/container"
+	"github.com/nspcc-dev/neofs-node/pkg/morph/client"
 	cntClient "github.com/nspcc-dev/neofs-node/pkg/morph/client/container"
 	fschaincontracts "github.com/nspcc-dev/neofs-node/pkg/morph/contracts"
-	containerEvent "github.com/nspcc-dev/neofs-node/pkg/morph/event/container"
-	sdkclient "github.com/nspcc-dev/neofs-sdk-go/client"
 	"github.com/nspcc-dev/neofs-sdk-go/container"
 	"github.com/nspcc-dev/neofs-sdk-go/container/acl"
 	cid "github.com/nspcc-dev/neofs-sdk-go/container/id"
-	neofscrypto "github.com/nspcc-dev/neofs-sdk-go/crypto"
-	neofsecdsa "github.com/nspcc-dev/neofs-sdk-go/crypto/ecdsa"
 	"github.com/nspcc-dev/neofs-sdk-go/eacl"
 	"github.com/nspcc-dev/neofs-sdk-go/netmap"
 	"github.com/nspcc-dev/neofs-sdk-go/session"
@@ -156,6 +151,7 @@ type c37Case struct {
 	// attribute requests
 	NotExpired bool `json:"not_expired"`
 	// observed
+	Faults   []string `json:"faults"` // names of the injected faults (informational)
 	Replayed bool `json:"replayed"` // the same request bytes as an earlier approved case, new environment
 	Approved bool `json:"approved"`
 	Panicked bool `json:"panicked"`
@@ -171,6 +167,11 @@ type c37Env struct {
 	cids  []cid.ID
 	owner []int
 	ext   []bool
+
+	mc        *client.Client
+	cc        *cntClient.Client
+	cnrHash   util.Uint160
+	extraFunc func(h util.Uint160, m string, args []params.FuncParam) *result.Invoke
 
 	alphabet bool
 	epoch    uint64
@@ -260,6 +261,11 @@ func newC37Env(seed uint64) *c37Env {
 
 	cnrHash := util.Uint160{0xc0}
 	e.ch.onFunc = func(h util.Uint160, m string, args []params.FuncParam) *result.Invoke {
+		if e.extraFunc != nil {
+			if r := e.extraFunc(h, m, args); r != nil {
+				return r
+			}
+		}
 		if h != cnrHash || m != "getInfo" || len(args) != 1 {
 			e.ch.note("call:" + m)
 			return nil
@@ -291,6 +297,7 @@ func newC37Env(seed uint64) *c37Env {
 	if err != nil {
 		panic(err)
 	}
+	e.mc, e.cc, e.cnrHash = mc, cc, cnrHash
 	st := c37State{e}
 	e.proc, err = cntproc.New(&cntproc.Params{Log: zap.NewNop(), PoolSize: 1, AlphabetState: st, ContainerClient: cc,
 		NetworkState: st, ChainTime: st})
@@ -339,635 +346,14 @@ func v2Verb(op int) sessionv2.Verb {
 	return sessionv2.VerbContainerRemoveAttribute
 }
 
-var someVerbs = []sessionv2.Verb{sessionv2.VerbObjectPut, sessionv2.VerbObjectGet, sessionv2.VerbObjectDelete, sessionv2.VerbContainerPut,
-	sessionv2.VerbContainerDelete, sessionv2.VerbContainerSetEACL, sessionv2.VerbContainerSetAttribute, sessionv2.VerbContainerRemoveAttribute}
-
-// genAuth builds the witness / session token for an operation `op` by the owner `owner` on
-// container index cnr (-1: creation) over the signed payload. The id the processor will
-// use for the container (when it has one) is idOf(cnr).
-func (e *c37Env) genAuth(op, owner, cnr int, payload []byte) (authFacts, []byte, []byte, []byte) {
-	g := e.g
-	var f authFacts
-	var tokBytes, invoc, verif []byte
-	other := func(i int) int { return (i + 1 + g.n(3)) % 4 }
-	own := owner
-	if own < 0 {
-		own = g.n(4)
-	}
-	switch x := g.n(20); {
-	case x < 7:
-		f.Tok = tokNone
-	case x < 8:
-		f.Tok = tokGarbage
-	case x < 13:
-		f.Tok = tokV1
-	default:
-		f.Tok = tokV2
-	}
-	// direct witness (used only without a token; with a V1 token the invocation script is the
-	// session-key signature, with a V2 token it is not looked at)
-	f.SigKey = own
-	if g.p(1, 4) {
-		f.SigKey = other(own)
-	}
-	f.SigValid = g.p(4, 5)
-	f.N3 = f.Tok == tokNone && g.p(1, 5)
-	f.N3OK = g.p(2, 3)
-	signed := payload
-	if !f.SigValid {
-		signed = append([]byte{0xff}, payload...)
-	}
-	sig, err := neofsecdsa.SignerRFC6979(e.users[f.SigKey].PrivateKey).Sign(signed)
-	if err != nil {
-		panic(err)
-	}
-	invoc = sig
-	verif = e.users[f.SigKey].PublicKey().Bytes()
-	if f.N3 {
-		verif = e.users[f.SigKey].PublicKey().GetVerificationScript()
-		invoc = append([]byte{0x0c, 64}, make([]byte, 64)...)
-	}
-	switch f.Tok {
-	case tokGarbage:
-		tokBytes = []byte{0xde, 0xad, 0xbe, 0xef, byte(g.n(256))}
-	case tokV1:
-		v := &v1Facts{Issuer: own, Verb: int(v1Verb(op)), Cnr: -1, Iat: e.nearEpoch(-1), Nbf: e.nearEpoch(-1), Exp: e.nearEpoch(1), SigOK: true, DataSigOK: true}
-		if cnr >= 0 && g.p(1, 2) {
-			v.Cnr = cnr
-		}
-		// mutations
-		for k := g.n(3); k > 0; k-- {
-			switch g.n(8) {
-			case 0:
-				v.Issuer = other(own)
-			case 1:
-				v.Verb = g.n(7)
-			case 2:
-				v.Cnr = g.n(4)
-			case 3:
-				v.Exp = int(e.epoch) - 1 - g.n(2)
-			case 4:
-				v.Nbf = int(e.epoch) + 1 + g.n(2)
-			case 5:
-				v.Iat = int(e.epoch) + 1
-			case 6:
-				v.SigOK = false
-			case 7:
-				v.DataSigOK = false
-			}
-		}
-		if g.p(1, 6) { // exact boundaries
-			v.Iat, v.Nbf, v.Exp = int(e.epoch), int(e.epoch), int(e.epoch)
-		}
-		sk, _ := keys.NewPrivateKey()
-		var tok session.Container
-		tok.SetID(uuid.New())
-		tok.SetAuthKey((*neofsecdsa.PublicKeyRFC6979)(&sk.PrivateKey.PublicKey))
-		tok.ForVerb(session.ContainerVerb(v.Verb))
-		if v.Cnr >= 0 {
-			tok.ApplyOnlyTo(e.cids[v.Cnr])
-		}
-		tok.SetIat(uint64(v.Iat))
-		tok.SetNbf(uint64(v.Nbf))
-		tok.SetExp(uint64(v.Exp))
-		if v.SigOK {
-			if err := tok.Sign(e.signer(v.Issuer)); err != nil {
-				panic(err)
-			}
-		} else if g.p(1, 2) {
-			// signed by somebody else while claiming the issuer
-			tok.SetIssuer(e.uids[v.Issuer])
-			if err := tok.SetSignature(neofsecdsa.SignerRFC6979(e.users[other(v.Issuer)].PrivateKey)); err != nil {
-				panic(err)
-			}
-		} else {
-			// signature over a different body
-			if err := tok.Sign(e.signer(v.Issuer)); err != nil {
-				panic(err)
-			}
-			s, _ := tok.Signature()
-			val := append([]byte(nil), s.Value()...)
-			val[len(val)/2] ^= 0x20
-			tok.AttachSignature(neofscrypto.NewSignatureFromRawKey(s.Scheme(), s.PublicKeyBytes(), val))
-		}
-		tokBytes = tok.Marshal()
-		ds := payload
-		dk := sk
-		if !v.DataSigOK {
-			if g.p(1, 2) {
-				ds = append([]byte{1}, payload...)
-			} else {
-				dk = e.users[own] // the owner's own key instead of the session key
-			}
-		}
-		invoc, err = neofsecdsa.SignerRFC6979(dk.PrivateKey).Sign(ds)
-		if err != nil {
-			panic(err)
-		}
-		f.V1 = v
-	case tokV2:
-		now := int(e.now.Unix() - t0)
-		v := &v2Facts{Valid: true, SigOK: true, OrigIssuer: own, Iat: now - 10, Nbf: now - 10, Exp: now + 10}
-		want := v2Verb(op)
-		// contexts: mostly one that fits
-		switch g.n(4) {
-		case 0:
-			v.Ctxs = []ctxFacts{{Cnr: -1, Verbs: []int{int(want)}}}
-		case 1:
-			if cnr >= 0 {
-				v.Ctxs = []ctxFacts{{Cnr: cnr, Verbs: []int{int(want)}}}
-			} else {
-				v.Ctxs = []ctxFacts{{Cnr: g.n(4), Verbs: []int{int(want)}}}
-			}
-		case 2:
-			v.Ctxs = []ctxFacts{{Cnr: -1, Verbs: e.someVerbs(1 + g.n(3))}}
-		default:
-			v.Ctxs = []ctxFacts{{Cnr: -1, Verbs: e.someVerbs(1 + g.n(2))}, {Cnr: g.n(4), Verbs: e.someVerbs(1 + g.n(3))}}
-			if eqInts(v.Ctxs[0].Verbs, v.Ctxs[1].Verbs) {
-				v.Ctxs = v.Ctxs[:1]
-			}
-		}
-		v.Delegated = g.p(1, 4)
-		for k := g.n(3); k > 0; k-- {
-			switch g.n(7) {
-			case 0:
-				v.OrigIssuer = other(own)
-			case 1:
-				v.Exp = now - 1 - g.n(2)
-			case 2:
-				v.Nbf = now + 1 + g.n(2)
-				if v.Exp < v.Nbf {
-					v.Exp = v.Nbf + 5
-				}
-			case 3:
-				v.Iat = now + 1
-				if v.Exp < v.Iat {
-					v.Exp = v.Iat + 5
-				}
-			case 4:
-				v.SigOK = false
-			case 5:
-				v.Valid = false
-			case 6:
-				v.Ctxs = []ctxFacts{{Cnr: -1, Verbs: e.someVerbs(1 + g.n(3))}}
-			}
-		}
-		if g.p(1, 6) {
-			v.Iat, v.Nbf, v.Exp = now, now, now
-		}
-		tokBytes = e.buildV2(v, other)
-		f.V2 = v
-	}
-	return f, tokBytes, invoc, verif
-}
-
-func eqInts(a, b []int) bool {
-	if len(a) != len(b) {
-		return false
-	}
-	for i := range a {
-		if a[i] != b[i] {
-			return false
-		}
-	}
-	return true
-}
-
-func (e *c37Env) nearEpoch(d int) int {
-	v := int(e.epoch) + d*e.g.n(3)
-	if v < 0 {
-		v = 0
-	}
-	return v
-}
-
-// someVerbs returns a sorted set of n distinct verbs
-func (e *c37Env) someVerbs(n int) []int {
-	set := map[int]bool{}
-	for len(set) < n {
-		set[int(someVerbs[e.g.n(len(someVerbs))])] = true
-	}
-	var r []int
-	for v := 0; v < 16; v++ {
-		if set[v] {
-			r = append(r, v)
-		}
-	}
-	return r
-}
-
-func (e *c37Env) buildV2(v *v2Facts, other func(int) int) []byte {
-	g := e.g
-	mkCtxs := func() []sessionv2.Context {
-		// Validate wants contexts sorted by container ID (wildcard = zero first)
-		cs := append([]ctxFacts(nil), v.Ctxs...)
-		for i := 0; i < len(cs); i++ {
-			for j := i + 1; j < len(cs); j++ {
-				if string(e.ctxID(cs[j])) < string(e.ctxID(cs[i])) {
-					cs[i], cs[j] = cs[j], cs[i]
-				}
-			}
-		}
-		var res []sessionv2.Context
-		for _, c := range cs {
-			var id cid.ID
-			copy(id[:], e.ctxID(c))
-			vs := make([]sessionv2.Verb, len(c.Verbs))
-			for i := range c.Verbs {
-				vs[i] = sessionv2.Verb(c.Verbs[i])
-			}
-			cx, err := sessionv2.NewContext(id, vs)
-			if err != nil {
-				panic(err)
-			}
-			res = append(res, cx)
-		}
-		return res
-	}
-	mk := func(issuer int, subj user.ID) sessionv2.Token {
-		var t sessionv2.Token
-		t.SetVersion(sessionv2.TokenCurrentVersion)
-		if err := t.SetSubjects([]sessionv2.Target{sessionv2.NewTargetUser(subj)}); err != nil {
-			panic(err)
-		}
-		if err := t.SetContexts(mkCtxs()); err != nil {
-			panic(err)
-		}
-		t.SetIat(time.Unix(t0+int64(v.Iat), 0))
-		t.SetNbf(time.Unix(t0+int64(v.Nbf), 0))
-		t.SetExp(time.Unix(t0+int64(v.Exp), 0))
-		return t
-	}
-	breakSig := func(t *sessionv2.Token) {
-		s, _ := t.Signature()
-		val := append([]byte(nil), s.Value()...)
-		val[len(val)/3] ^= 0x04
-		t.AttachSignature(neofscrypto.NewSignatureFromRawKey(s.Scheme(), s.PublicKeyBytes(), val))
-	}
-	stranger, _ := keys.NewPrivateKey()
-	strangerID := user.NewFromECDSAPublicKey(stranger.PrivateKey.PublicKey)
-	var tok sessionv2.Token
-	if !v.Delegated {
-		tok = mk(v.OrigIssuer, strangerID)
-		if !v.Valid {
-			switch g.n(3) {
-			case 0:
-				tok.SetVersion(7)
-			case 1:
-				_ = tok.SetSubjects(nil)
-			default:
-				tok.SetNbf(time.Unix(t0+int64(v.Exp)+50, 0)) // nbf after exp
-			}
-		}
-		if err := tok.Sign(e.signer(v.OrigIssuer)); err != nil {
-			panic(err)
-		}
-		if !v.SigOK {
-			if g.p(1, 2) {
-				breakSig(&tok)
-			} else {
-				// claims the issuer, signed by another key
-				s := neofsecdsa.SignerRFC6979(e.users[other(v.OrigIssuer)].PrivateKey)
-				var sg neofscrypto.Signature
-				if err := sg.Calculate(s, tok.SignedData()); err != nil {
-					panic(err)
-				}
-				tok.AttachSignature(sg)
-			}
-		}
-		return tok.Marshal()
-	}
-	del := other(v.OrigIssuer)
-	origin := mk(v.OrigIssuer, e.uids[del])
-	if !v.Valid && g.p(1, 2) {
-		// the delegate is not among the origin's subjects
-		_ = origin.SetSubjects([]sessionv2.Target{sessionv2.NewTargetUser(strangerID)})
-	} else if !v.Valid {
-		origin.SetFinal(true)
-	}
-	if err := origin.Sign(e.signer(v.OrigIssuer)); err != nil {
-		panic(err)
-	}
-	if !v.SigOK && g.p(1, 2) {
-		breakSig(&origin)
-	}
-	tok = mk(del, strangerID)
-	tok.SetOrigin(&origin)
-	if err := tok.Sign(e.signer(del)); err != nil {
-		panic(err)
-	}
-	if !v.SigOK {
-		if _, ok := origin.Signature(); ok && origin.VerifySignature() {
-			breakSig(&tok)
-		}
-	}
-	return tok.Marshal()
-}
-
-func (e *c37Env) ctxID(c ctxFacts) []byte {
-	if c.Cnr < 0 {
-		return make([]byte, 32)
-	}
-	return e.cids[c.Cnr][:]
-}
-
-var attrPool = []string{"Color", "Name", "__NEOFS__NAME", "__NEOFS__ZONE", "__NEOFS__LOCK_UNTIL", "__NEOFS__METAINFO_CONSISTENCY",
-	"__NEOFS__DISABLE_HOMOMORPHIC_HASHING", "__NEOFS__EVIL", "__NEOFS__", "__NEOFS_X", "_NEOFS__NAME"}
-
-func attrValue(k string) string {
-	switch k {
-	case "__NEOFS__LOCK_UNTIL":
-		return "1900000000"
-	case "__NEOFS__METAINFO_CONSISTENCY":
-		return "strict"
-	case "__NEOFS__DISABLE_HOMOMORPHIC_HASHING":
-		return "true"
-	}
-	return "v"
-}
-
-func (e *c37Env) genEACL(target cid.ID, ext bool) (*eaclFacts, []byte) {
-	g := e.g
-	f := &eaclFacts{Decodes: true, CIDSet: true, CIDSame: true}
-	var recs []eacl.Record
-	nr := g.n(4)
-	for i := 0; i < nr; i++ {
-		var rf recFacts
-		var ts []eacl.Target
-		for k := g.n(3); k > 0; k-- {
-			role := eacl.RoleUser
-			switch g.n(8) {
-			case 0:
-				role = eacl.RoleSystem
-			case 1, 2:
-				role = eacl.RoleOthers
-			case 3:
-				role = eacl.RoleUnspecified
-			}
-			rf.Roles = append(rf.Roles, int(role))
-			if role == eacl.RoleUnspecified {
-				ts = append(ts, eacl.NewTargetByAccounts([]user.ID{e.uids[g.n(4)]}))
-			} else {
-				ts = append(ts, eacl.NewTargetByRole(role))
-			}
-		}
-		var fs []eacl.Filter
-		for k := g.n(3); k > 0; k-- {
-			ff := filterFacts{M: g.n(3), V: g.n(3)}
-			if g.p(2, 3) { // mostly consistent
-				if ff.M == 1 {
-					ff.V = 0
-				} else if ff.M == 2 {
-					ff.V = 1
-				}
-			}
-			m := eacl.MatchStringEqual
-			switch ff.M {
-			case 1:
-				m = eacl.MatchNotPresent
-			case 2:
-				m = []eacl.Match{eacl.MatchNumGT, eacl.MatchNumGE, eacl.MatchNumLT, eacl.MatchNumLE}[g.n(4)]
-			}
-			val := []string{"", []string{"10", "-7", "0", "123456789012345678901234567890"}[g.n(4)], []string{"abc", "1.5", "0x10", "1e3"}[g.n(4)]}[ff.V]
-			fs = append(fs, eacl.NewObjectPropertyFilter("k"+strconv.Itoa(k), m, val))
-			rf.Filters = append(rf.Filters, ff)
-		}
-		recs = append(recs, eacl.ConstructRecord(eacl.ActionDeny, eacl.OperationGet, ts, fs...))
-		if rf.Roles == nil {
-			rf.Roles = []int{}
-		}
-		if rf.Filters == nil {
-			rf.Filters = []filterFacts{}
-		}
-		f.Records = append(f.Records, rf)
-	}
-	if f.Records == nil {
-		f.Records = []recFacts{}
-	}
-	var tb eacl.Table
-	switch g.n(12) {
-	case 0:
-		f.CIDSet, f.CIDSame = false, false
-		tb = eacl.ConstructTable(recs)
-	case 1:
-		f.CIDSame = false
-		tb = eacl.NewTableForContainer(cid.NewFromMarshalledContainer([]byte("another")), recs)
-	default:
-		tb = eacl.NewTableForContainer(target, recs)
-	}
-	b := tb.Marshal()
-	if g.p(1, 15) {
-		f.Decodes = false
-		b = []byte{0xff, 0xff, 0x01}
-	}
-	if _, err := eacl.Unmarshal(b); (err == nil) != f.Decodes {
-		panic("harness: eACL decodability differs from the claimed fact")
-	}
-	return f, b
-}
-
-func (e *c37Env) prepare(op int) (c37Case, func()) {
-	g := e.g
-	c := c37Case{Kind: "c37", Op: op, Cnr: -1, Owner: -1, Attrs: []string{}, IDOK: true}
-	c.Alphabet = g.p(15, 16)
-	c.Epoch = 5 + g.n(6)
-	c.Now = 1000 + g.n(1000)
-	c.Meta = g.p(1, 2)
-	c.AllowEC = g.p(1, 2)
-	e.alphabet, e.epoch, e.now = c.Alphabet, uint64(c.Epoch), time.Unix(t0+int64(c.Now), 0)
-	e.proc.VerifSetFlags(c.Meta, c.AllowEC)
-	var mainTx transaction.Transaction
-	mainTx.Script = []byte{0x40}
-	var run func()
-	switch op {
-	case opPut, opPutNamed, opCreateV2:
-		c.Owner = g.n(4)
-		c.Decodes = g.p(14, 15)
-		var cnr container.Container
-		cnr.Init()
-		cnr.SetOwner(e.uids[c.Owner])
-		c.Extend = g.p(2, 3)
-		if c.Extend {
-			cnr.SetBasicACL(acl.PublicRWExtended)
-		} else {
-			cnr.SetBasicACL(acl.Private)
-		}
-		// policy
-		switch g.n(8) {
-		case 0, 1, 2, 3:
-			c.NRep = 1 + g.n(2)
-		case 4, 5:
-			c.NEC = 1 + g.n(2)
-		case 6:
-			c.NRep, c.NEC = 1, 1
-		default:
-			c.NRep = 1
-		}
-		pol := simplePolicy(c.NRep, c.NEC)
-		c.PolVerify = true
-		if g.p(1, 6) {
-			c.PolVerify = false
-			switch {
-			case c.NRep > 0 && g.p(1, 2):
-				rs := pol.Replicas()
-				rs[0].SetNumberOfObjects(9) // more than 8 replicas
-				pol.SetReplicas(rs)
-			case c.NRep > 0:
-				rs := pol.Replicas()
-				rs[0].SetSelectorName("missing")
-				pol.SetReplicas(rs)
-			default:
-				pol.SetContainerBackupFactor(40) // 40 * (2+1) > 64 nodes in a set
-			}
-		}
-		if g.p(1, 6) {
-			c.Initial = true
-			var ip netmap.InitialPlacementPolicy
-			ip.SetMaxReplicas(1)
-			pol.SetInitial(ip)
-		}
-		if (pol.Verify() == nil) != c.PolVerify {
-			panic("harness: policy validity differs from the claimed fact")
-		}
-		cnr.SetPlacementPolicy(pol)
-		// attributes
-		na := g.n(4)
-		seen := map[string]bool{}
-		for i := 0; i < na; i++ {
-			k := attrPool[g.n(len(attrPool))]
-			if g.p(1, 2) {
-				k = attrPool[g.n(2)]
-			}
-			if seen[k] {
-				continue
-			}
-			seen[k] = true
-			cnr.SetAttribute(k, attrValue(k))
-			c.Attrs = append(c.Attrs, k)
-		}
-		c.NameMatch = true
-		if op == opCreateV2 {
-			st := toStruct(cnr)
-			if !c.Decodes {
-				st.Nonce = st.Nonce[:5]
-			}
-			var signed []byte
-			id := cid.ID{}
-			if rt, err := cntClient.ContainerFromStruct(*st); err == nil {
-				signed = rt.Marshal()
-				id = cid.NewFromMarshalledContainer(signed)
-			} else if c.Decodes {
-				panic(err)
-			}
-			var tok, invoc, verif []byte
-			c.Auth, tok, invoc, verif = e.genAuth(op, c.Owner, -1, signed)
-			req := containerEvent.CreateContainerV2Request{MainTransaction: mainTx, Container: *st, InvocationScript: invoc, VerificationScript: verif, SessionToken: tok}
-			if g.p(1, 3) {
-				ef, eb := e.genEACL(id, c.Extend)
-				a, etok, einvoc, everif := e.genAuthFor(opSetEACL, c.Owner, eb)
-				ef.Auth = &a
-				c.EACL = ef
-				er := containerEvent.PutContainerEACLRequest{MainTransaction: mainTx}
-				er.EACL, er.InvocationScript, er.VerificationScript, er.SessionToken = eb, einvoc, everif, etok
-				req.EACLTable = &er
-			}
-			run = func() { e.proc.VerifProcessCreateV2(req) }
-			break
-		}
-		bin := cnr.Marshal()
-		if !c.Decodes {
-			bin = []byte{0x0a, 0xff, 0x01}
-		}
-		var req containerEvent.CreateContainerRequest
-		req.MainTransaction = mainTx
-		req.Container = bin
-		c.Auth, req.SessionToken, req.InvocationScript, req.VerificationScript = e.genAuth(op, c.Owner, -1, bin)
-		if op == opPutNamed {
-			d := cnr.ReadDomain()
-			req.DomainName, req.DomainZone = d.Name(), d.Zone()
-			if req.DomainZone == "" {
-				req.DomainZone = "container"
-			}
-			if g.p(1, 3) {
-				if g.p(1, 2) {
-					req.DomainName += "x"
-				} else {
-					req.DomainZone += "y"
-				}
-			}
-			c.NameMatch = req.DomainName == d.Name() && req.DomainZone == d.Zone()
-		}
-		run = func() { e.proc.VerifProcessPut(req, sha256.Sum256(bin)) }
-	case opDelete, opSetAttr, opRemoveAttr:
-		c.Cnr = g.n(4)
-		if g.p(3, 4) {
-			c.Cnr = g.n(3)
-		}
-		c.Exists = c.Cnr < 3
-		if c.Exists {
-			c.Owner = e.owner[c.Cnr]
-			c.Extend = e.ext[c.Cnr]
-		}
-		idb := append([]byte(nil), e.cids[c.Cnr][:]...)
-		if g.p(1, 15) {
-			c.IDOK = false
-			idb = idb[:31]
-		}
-		c.NotExpired = g.p(5, 6)
-		vu := time.Now().Unix() + 3600
-		if !c.NotExpired {
-			vu = time.Now().Unix() - 3600
-		}
-		switch op {
-		case opDelete:
-			var req containerEvent.RemoveContainerRequest
-			req.MainTransaction = mainTx
-			req.ID = idb
-			c.Auth, req.SessionToken, req.InvocationScript, req.VerificationScript = e.genAuth(op, c.Owner, c.Cnr, idb)
-			run = func() { e.proc.VerifProcessDelete(req) }
-		case opSetAttr:
-			req := containerEvent.SetAttributeRequest{MainTransaction: mainTx, ID: idb, Attribute: "Color", Value: "red", ValidUntil: vu}
-			signed := sdkclient.GetSignedSetContainerAttributeParameters(sdkclient.SetContainerAttributeParameters{
-				ID: e.cids[c.Cnr], Attribute: req.Attribute, Value: req.Value, ValidUntil: time.Unix(vu, 0)})
-			c.Auth, req.SessionToken, req.InvocationScript, req.VerificationScript = e.genAuth(op, c.Owner, c.Cnr, signed)
-			run = func() { e.proc.VerifProcessSetAttribute(req) }
-		default:
-			req := containerEvent.RemoveAttributeRequest{MainTransaction: mainTx, ID: idb, Attribute: "Color", ValidUntil: vu}
-			signed := sdkclient.GetSignedRemoveContainerAttributeParameters(sdkclient.RemoveContainerAttributeParameters{
-				ID: e.cids[c.Cnr], Attribute: req.Attribute, ValidUntil: time.Unix(vu, 0)})
-			c.Auth, req.SessionToken, req.InvocationScript, req.VerificationScript = e.genAuth(op, c.Owner, c.Cnr, signed)
-			run = func() { e.proc.VerifProcessRemoveAttribute(req) }
-		}
-	case opSetEACL:
-		c.Cnr = g.n(4)
-		if g.p(3, 4) {
-			c.Cnr = g.n(3)
-		}
-		c.Exists = c.Cnr < 3
-		if c.Exists {
-			c.Owner = e.owner[c.Cnr]
-			c.Extend = e.ext[c.Cnr]
-		}
-		ef, eb := e.genEACL(e.cids[c.Cnr], c.Extend)
-		if ef.CIDSet && !ef.CIDSame {
-			// the table names a container the chain does not have
-			c.Exists, c.Owner = false, -1
-		}
-		c.EACL = ef
-		var req containerEvent.PutContainerEACLRequest
-		req.MainTransaction = mainTx
-		req.EACL = eb
-		c.Auth, req.SessionToken, req.InvocationScript, req.VerificationScript = e.genAuth(op, c.Owner, c.Cnr, eb)
-		run = func() { e.proc.VerifProcessPutEACL(req) }
-	}
-	return c, run
-}
-
 // execute runs a prepared request under the environment recorded in c
 func (e *c37Env) execute(c *c37Case, run func()) {
 	e.alphabet, e.epoch, e.now = c.Alphabet, uint64(c.Epoch), time.Unix(t0+int64(c.Now), 0)
 	e.proc.VerifSetFlags(c.Meta, c.AllowEC)
 	e.n3ok = c.Auth.N3OK
+	if !c.Auth.N3 && c.EACL != nil && c.EACL.Auth != nil && c.EACL.Auth.N3 {
+		e.n3ok = c.EACL.Auth.N3OK
+	}
 	if c.Owner >= 0 {
 		e.n3acc = e.uids[c.Owner].ScriptHash()
 	} else {
@@ -985,12 +371,6 @@ func (e *c37Env) execute(c *c37Case, run func()) {
 		run()
 	}()
 	c.Approved = e.approved > 0
-}
-
-// genAuthFor: witness of the optional eACL call inside createV2 (the new container's id is
-// not one of the stored ones, so tokens bound to a stored container never fit)
-func (e *c37Env) genAuthFor(op, owner int, payload []byte) (authFacts, []byte, []byte, []byte) {
-	return e.genAuth(op, owner, -1, payload)
 }
 
 func c37Main() {
